@@ -97,6 +97,17 @@ var BadNumbers = []string{"1e", "--", "1.", ".5", "+1", "01", "1e+", "0x1", " 1"
 var Scripts = []string{"", " ", "nul", "tru", "01", "1.", "-", "[1,]", "{\"a\":1,}", "[1 2]", "{\"a\"}", "\"a", "\"\x01\"", "\"\\x\"", "1 2", "[1]]", "[", "{",
 	"{\"a\":[1,{\"b\":null}]}", " [ 1 , 2 ] ", "\"ok\"", "1e5", "nulll", "\"\\u12\"", "\"\xff\"", "1\x00", "[1,\n2]", "{\"k\" : \"v\"}\n"}
 
+// BothP / BothV implement json.Marshaler AND encoding.TextMarshaler (like math/big.Int): MarshalJSON must win.
+type BothP struct{ N int }
+
+func (b *BothP) MarshalJSON() ([]byte, error) { return []byte(fmt.Sprintf(`{"json":%d}`, b.N)), nil }
+func (b *BothP) MarshalText() ([]byte, error) { return []byte(fmt.Sprintf("text-%d", b.N)), nil }
+
+type BothV struct{ N int }
+
+func (b BothV) MarshalJSON() ([]byte, error) { return []byte(fmt.Sprintf(`[%d]`, b.N)), nil }
+func (b BothV) MarshalText() ([]byte, error) { return []byte(fmt.Sprintf("textv-%d", b.N)), nil }
+
 type Empty struct{}
 type PtrField struct{ P *int }
 
@@ -107,6 +118,7 @@ var namedTypes = map[string]reflect.Type{
 	"Rec": reflect.TypeOf(Rec{}), "RecMap": reflect.TypeOf(RecMap{}), "MutualA": reflect.TypeOf(MutualA{}),
 	"UnmarshalerP": reflect.TypeOf(UnmarshalerP{}), "TextUnmarshalerP": reflect.TypeOf(TextUnmarshalerP{}),
 	"Empty": reflect.TypeOf(Empty{}), "PtrField": reflect.TypeOf(PtrField{}), "Scripted": reflect.TypeOf(Scripted{}),
+	"BothP": reflect.TypeOf(BothP{}), "BothV": reflect.TypeOf(BothV{}),
 }
 
 var scalarTypes = map[string]reflect.Type{
@@ -405,7 +417,7 @@ func (g *gen) sub(n *Node, depth, i int) reflect.Value {
 func (g *gen) named(n *Node, v reflect.Value, depth int) {
 	k := g.pick(3)
 	switch n.Name {
-	case "MarshalerV", "MarshalerP":
+	case "MarshalerV", "MarshalerP", "BothP", "BothV":
 		v.Field(0).SetInt(int64(k * 7))
 	case "TextV", "TextP":
 		v.Field(0).SetString([]string{"", "t", "a\"<b"}[k])
